@@ -402,7 +402,7 @@ func c10RunHistory(h c10History) (res c10Result) {
 			_ = p.conn.Close()
 		}
 		pmu.Unlock()
-		ln.wg.Wait()
+		ln.waitPeers()
 	}()
 	behOf := func(n int) string {
 		if phase.Load() == 1 {
@@ -1168,7 +1168,7 @@ func c10StressF4(c *Ctx, iters int) {
 		if err != nil {
 			_ = conn.Close()
 			peers.stopAll()
-			ln.wg.Wait()
+			ln.waitPeers()
 			continue
 		}
 		select {
@@ -1176,7 +1176,7 @@ func c10StressF4(c *Ctx, iters int) {
 		case <-time.After(2 * time.Second):
 			_ = conn.Close()
 			peers.stopAll()
-			ln.wg.Wait()
+			ln.waitPeers()
 			continue
 		}
 		ln.log("call.close:1")
@@ -1204,7 +1204,7 @@ func c10StressF4(c *Ctx, iters int) {
 			sealed++
 		}
 		peers.stopAll()
-		ln.wg.Wait()
+		ln.waitPeers()
 		if r := ln.openResources(); len(r) != 0 {
 			c.Violate("property", "resource-left-open", fmt.Sprintf("stress: harness-owned %v not closed after Close", r), map[string]any{"stress_iteration": it, "transport": tr.String()})
 		}
@@ -1256,7 +1256,7 @@ func c10RacePublish(c *Ctx, iters int) {
 		}
 		cleanup := func() {
 			peers.stopAll()
-			ln.wg.Wait()
+			ln.waitPeers()
 		}
 		ctx, cancel := context.WithTimeout(context.Background(), 2*time.Second)
 		ln.log("call.open.wait:1")
